@@ -1040,46 +1040,74 @@ func c12TaxDate(c *core.Ctx) {
 				}
 				n++
 				key := fd.Name() + "#tax-date"
-				st, ok := ast.Unparen(kv.Value).(*ast.StarExpr)
-				v := (*types.Var)(nil)
-				if ok {
-					v = core.VarOf(info, st.X)
+				// The function is evaluated up to the statement that builds the calculator, once with
+				// a value date present and once without (conditions that do not concern the dates are
+				// passed over, forgetting what their branches assign): the Date must then be the
+				// value date, respectively the issue date.
+				idx := -1
+				for i, s := range fd.Decl.Body.List {
+					if s.Pos() <= cl.Pos() && cl.End() <= s.End() {
+						idx = i
+					}
 				}
-				if v == nil {
-					c.Undecided("C12-R5", key, kv.Pos(), "the tax date is not a dereferenced local date pointer")
+				if idx < 0 {
+					c.Undecided("C12-R5", key, kv.Pos(), "the calculator is not built at the top level of the function")
 					continue
 				}
-				ld := core.NewLocalDefs(info, fd.Decl.Body)
-				defs := ld.All(v)
-				// expect: v := doc.getValueDate(); if v == nil { id := doc.getIssueDate(); v = &id }
-				okValue, okIssue := false, false
-				for _, d := range defs {
-					rhs := ast.Unparen(d.RHS)
-					if call, ok := rhs.(*ast.CallExpr); ok {
-						if fn := core.Callee(info, call); fn != nil && strings.Contains(strings.ToLower(fn.Name()), "valuedate") {
-							okValue = true
-							c12DateGetters(c, fn, "ValueDate")
+				var vdFn, idFn *types.Func
+				okBoth, why := true, ""
+				for _, present := range []bool{true, false} {
+					present := present
+					ev := &core.AbsEval{Info: info}
+					ev.UnknownIf = func(*ast.IfStmt) bool { return true }
+					ev.SkipLoop = func(ast.Stmt) bool { return true }
+					ev.Atom = func(e ast.Expr) (any, bool) {
+						e = ast.Unparen(e)
+						if core.IsNil(info, e) {
+							return "nil", true
 						}
-						continue
-					}
-					if u, ok := rhs.(*ast.UnaryExpr); ok && u.Op == token.AND {
-						src := ld.Resolve(u.X, 2)
-						if call, ok := ast.Unparen(src).(*ast.CallExpr); ok {
-							if fn := core.Callee(info, call); fn != nil && strings.Contains(strings.ToLower(fn.Name()), "issuedate") {
-								c12DateGetters(c, fn, "IssueDate")
-								// must be under `v == nil`
-								for _, cond := range enclosingConds(fd.Decl.Body, d.Stmt) {
-									g := core.GuardOf(info, cond, nil)
-									if g.Kind == "nil" && !g.Neg && core.VarOf(info, g.X) == v {
-										okIssue = true
+						if call, ok := e.(*ast.CallExpr); ok && len(call.Args) == 0 {
+							if fn := core.Callee(info, call); fn != nil {
+								switch ln := strings.ToLower(fn.Name()); {
+								case strings.Contains(ln, "valuedate") && strings.HasPrefix(ln, "get"):
+									vdFn = fn
+									if present {
+										return core.AbsPtr{Elem: "value-date"}, true
 									}
+									return "nil", true
+								case strings.Contains(ln, "issuedate") && strings.HasPrefix(ln, "get"):
+									idFn = fn
+									return "issue-date", true
 								}
 							}
 						}
+						return nil, false
+					}
+					_, reached, ok := ev.RunList(fd.Decl.Body.List[:idx])
+					got, gok := ev.Eval(kv.Value)
+					want := "issue-date"
+					if present {
+						want = "value-date"
+					}
+					switch {
+					case !ok || reached || !gok:
+						okBoth, why = false, "UNDECIDED: the date handed to the tax calculator could not be evaluated"
+					case got != any(want):
+						okBoth = false
+						why = fmt.Sprintf("with the value date present=%v the tax calculator is given the %v, expected the %s", present, got, want)
 					}
 				}
-				c.Ob("C12-R5", key, kv.Pos(), okValue && okIssue && len(defs) == 2,
-					"the date handed to the tax calculator is not `value date if present, else issue date`")
+				if vdFn != nil {
+					c12DateGetters(c, vdFn, "ValueDate")
+				}
+				if idFn != nil {
+					c12DateGetters(c, idFn, "IssueDate")
+				}
+				if strings.HasPrefix(why, "UNDECIDED:") {
+					c.Undecided("C12-R5", key, kv.Pos(), strings.TrimPrefix(why, "UNDECIDED: "))
+				} else {
+					c.Ob("C12-R5", key, kv.Pos(), okBoth, "the date handed to the tax calculator is not `value date if present, else issue date`: "+why)
+				}
 			}
 			return true
 		})
